@@ -35,6 +35,7 @@ pub const SPEC: PropSpec = PropSpec {
         ("fast_recovery.left_at_12000_by_ack", 100, 4_000),
         ("fast_recovery.left_at_12000_by_recovery", 300, 10_000),
         ("fast_recovery.left_by_reset", 300, 10_000),
+        ("fast_recovery.latched_with_window_near_ceiling", 500, 10_000),
         ("ack.earned_grew", 10_000, 400_000),
         ("ack.earned_not_grown", 10_000, 400_000),
         ("ack.global_applied", 10_000, 400_000),
@@ -108,6 +109,12 @@ pub fn run_history(rng: &mut Rng, rep: &mut Report) {
             rtt_slope = *rng.pick(&[-5.0, 0.0, 0.0, 3.0, 10.0, 40.0]);
         }
         phase_left -= 1;
+        if c.congestion.fast_recovery_mode && rng.chance(1, 40) {
+            // reachable: classic-mode ACK growth (+29 per earned ACK) never clears the latch, so a link can climb
+            // from <= 2000 to the ceiling with it still set (then a runtime set_mode enhanced enables recovery ticks)
+            c.window = 59_850 + rng.below(150) as i32;
+            rep.count("fast_recovery.latched_with_window_near_ceiling");
+        }
         let w0 = c.window;
         let fr0 = c.congestion.fast_recovery_mode;
         let weights: [u32; 9] = match phase {
@@ -352,7 +359,7 @@ pub fn run_history(rng: &mut Rng, rep: &mut Report) {
 }
 
 pub fn run(cfg: &RunCfg) -> Report {
-    let cases = cfg.cases(6_000, 200_000);
+    let cases = cfg.cases(20_000, 400_000);
     let mut rep = run_cases(cfg, 0, cases, Duration::from_secs(3600), |_c, rng, rep| run_history(rng, rep));
     rep.merge(crate::sim::c06_shell::run(cfg));
     rep
